@@ -30,6 +30,28 @@ Next == /\ Len(s) < Groups[g].maxlen
         /\ UNCHANGED g
 Spec == Init /\ [][Next]_vars
 
+(* The filter is not vacuous: the grammar alone is ambiguous on these strings and the table decides *)
+TK(cps) == Lex(cps).toks
+Only(toks) == CHOOSE t \in ValidTrees(toks) : TRUE
+ASSUME LET t == TK(<<97, 32, 43, 32, 97, 32, 42, 32, 97>>) IN          \* a + a * a
+       Cardinality(AllTrees(t)) = 2 /\ Cardinality(ValidTrees(t)) = 1 /\ Only(t).ch[1].op = "+"
+ASSUME LET t == TK(<<97, 32, 42, 42, 32, 97, 32, 42, 42, 32, 97>>) IN          \* a ** a ** a : right-associative
+       Cardinality(AllTrees(t)) = 2 /\ Cardinality(ValidTrees(t)) = 1 /\ Only(t).ch[1].ch[1].k = "name"
+ASSUME LET t == TK(<<97, 32, 61, 61, 32, 97, 32, 61, 61, 32, 97>>) IN          \* a == a == a : non-associative, no valid tree
+       Cardinality(AllTrees(t)) = 2 /\ ValidTrees(t) = {}
+ASSUME LET t == TK(<<45, 32, 97, 32, 42, 42, 32, 97>>) IN          \* - a ** a  is  (-a) ** a ;  - a [ a ]  is  -(a[a])
+       Cardinality(AllTrees(t)) = 2 /\ Cardinality(ValidTrees(t)) = 1 /\ Only(t).ch[1].k = "bin"
+ASSUME LET t == TK(<<45, 32, 97, 32, 91, 32, 97, 32, 93>>) IN
+       Cardinality(ValidTrees(t)) = 1 /\ Only(t).ch[1].k = "un"
+ASSUME LET t == TK(<<97, 32, 43, 32, 97, 32, 110, 111, 116, 32, 105, 110, 32, 97>>) IN          \* a + a not in a  is  (a + a) not in a  (normative)
+       Cardinality(ValidTrees(t)) = 1 /\ Only(t).ch[1].op = "not in"
+ASSUME LET t == TK(<<120, 32, 61, 62, 32, 120, 32, 105, 102, 32, 97, 32, 101, 108, 115, 101, 32, 97>>) IN          \* x => x if a else a : the body is maximal
+       Cardinality(AllTrees(t)) = 2 /\ Cardinality(ValidTrees(t)) = 1 /\ Only(t).ch[1].k = "lambda"
+ASSUME LET t == TK(<<97, 32, 91, 32, 97, 32, 93>>) IN          \* a [ a ] : index, not a one-element slice
+       Cardinality(AllDerivs(t)) = 2 /\ Cardinality(ValidTrees(t)) = 1 /\ Only(t).ch[1].ch[2].k = "name"
+ASSUME LET t == TK(<<100, 101, 108, 32, 97, 32, 43, 32, 97, 32, 91, 32, 97, 32, 93>>) IN          \* del a + a [ a ] : derivable, but  a + (a[a])  is not an index -> rejected
+       AllTrees(t) # {} /\ ValidTrees(t) = {} /\ ~ParseD(t, {}).ok
+
 InvSound == Sound(Toks)
 InvComplete == Complete(Toks)
 InvUnique == Unique(Toks)
